@@ -167,7 +167,9 @@ CLAIMED.update({
             "same gap run between them (either reading direction), or -- inside a left-over scaffold only -- two never-found contigs "
             "with a found one between them, separated by the single input gap that preceded the second (this third case was FOUND BY "
             "THE PROOF: the two-case statement is refuted in Coq, C07_two_case_statement_refuted, and reproduced on /repo; it cannot "
-            "arise on maps that tile every scaffold, so it is an edge-of-hypothesis behaviour, DESIGN 13.5). The same three-case "
+            "arise on maps that tile every scaffold: C07_pretextview_gaps proves, for every tiling map (the hypotheses of C02_completion), the "
+            "TWO-case statement -- exactly the join gap or exactly the input gap run of the same two neighbours -- which is the property's "
+            "second sentence for maps PretextView can produce; DESIGN 13.5). The same three-case "
             "statement is the oracle that walks every output scaffold against the input on every generated case (PretextView-model "
             "maps: first two cases only). The pinned commit's gapless left-over join is refuted "
             "in Coq, reproduced, fixed, and kept in the corpus. " + PIPE,
